@@ -72,6 +72,10 @@ def run(pid, tier, seed):
                     strategy = S.IGNORE if overwrite else (S.REPLICATE if si % 2 == 0 else S.OMIT)
                     plain = si % 3 == 2          # every third source: a stub over builtins only, i.e. without any import
                     stub_text = build_module_stubs_from_traces(applygen.traces_for(mod, k, plain), k, strategy)[name].render()
+                    if si % 5 == 1 and pid == "C16":
+                        # a hand-edited stub: one user-module import aliased (C16 only: its clauses are about import items;
+                        # libcst may render the annotation through another import of the source, which C15 compares textually)
+                        stub_text = alias_one_import(stub_text, src)
                     stub_tree = ast.parse(stub_text)
                     stub_ann = applygen.annotations_of(stub_tree)
                     for confine in ((False, True) if pid == "C15" else (True,)):
@@ -104,6 +108,27 @@ def run(pid, tier, seed):
         pd.close()
         drv.close()
     return chk.finish(proof, None)
+
+
+def alias_one_import(stub_text, src=""):
+    """`from m import Name` (m not typing / mypy_extensions) -> `from m import Name as NameFromStub`, references renamed;
+    an import of a module the source does not mention is preferred (libcst renders a class of a module the source imports
+    as `module.Name`, and the aliased name then goes unused)"""
+    import re
+    cands = list(re.finditer(r"^from (?!typing\b|mypy_extensions\b)([\w.]+) import (\w+)$", stub_text, re.M))
+    plain = set(re.findall(r"^\s*import\s+([\w.]+)", src, re.M)) | {x.strip().split(" ")[0] for l in re.findall(r"^\s*import\s+(.+)$", src, re.M) for x in l.split(",")}
+    cands.sort(key=lambda m: (m.group(1) in plain or m.group(1).split(".")[0] in plain, m.group(2) in src))
+    for m in cands:
+        name = m.group(2)
+        alias = name + "FromStub"
+        head, tail = stub_text[:m.end()], stub_text[m.end():]
+        out = head + " as " + alias + re.sub(r"(?<![\w.])%s\b" % re.escape(name), alias, tail)
+        try:
+            ast.parse(out)
+        except SyntaxError:
+            continue
+        return out
+    return stub_text
 
 
 def stmt_sexp(s):
